@@ -12,6 +12,7 @@ from common import cq_bool, cq_list, cq_nat, cq_opt, letter_code
 import dfdrv as dd
 
 ID = "C18"
+THOROUGH_ROUNDS = 4      # rounds of generate() in the thorough tier (new random draws each round)
 COQ_MODULE = "Corr.C18"
 SHARD = 100
 RULE = ("seeded random definitions: 1-4 dimensions (int / str items), process lists (sysenv first; faulty: sysenv missing or not "
